@@ -455,7 +455,9 @@ func one(c *fw.Ctx, body []gen.Stmt) {
 			// re-run for stability before reporting
 			stable := true
 			for i := 0; i < 4; i++ {
-				if cmpx.Compare(r, run.Source(src, run.Options{NoOptimize: noopt})) != d {
+				// (the text of a disagreement may vary from run to run - Go stacks, addresses; unstable means that a
+				// re-run AGREES with the reference)
+				if cmpx.Compare(r, run.Source(src, run.Options{NoOptimize: noopt})) == "" {
 					stable = false
 				}
 			}
